@@ -315,7 +315,9 @@ def run(ctx):
         src = M.strip(a[0], also=AS_RAW)
         want = ("field", ("param", ce, "child_ends"), str(k)) if ce else None
         is_fd = a[0][0] == "call" and a[0][1] in AS_RAW
-        guard = bool_edges(de, T, lambda c: c[0] == "bin" and c[1] == "Ne" and const_of(c[3]) == k and M.strip(c[2], also=AS_RAW) == want and c[2][0] == "call", True)
+        # (`fd != k`, `!(fd == k)`, an early return under `fd == k`, a match arm ...)
+        is_src_fd = lambda x: M.noref(x)[0] == "call" and M.noref(x)[1] in AS_RAW and M.strip(x, also=AS_RAW) == want
+        guard = int_eq_edges_ne(de, T, is_src_fd, k)
         ok = k in (0, 1, 2) and src == want and is_fd and dominated_by_edges(de, bb, guard)
         seen[k] = seen.get(k, 0) + 1
         ctx.ob("R05.3", "dup2->%s" % k, ok, de.loc(bb), "dup2(%s, %s): source must be the fd of child_ends.%s and the call guarded by `fd != %s`" % (M.term_str(a[0]), k, k, k))
